@@ -36,6 +36,8 @@ end
 
 def Comparable (x : Val) : Prop := cmp x = true
 
+instance (x : Val) : Decidable (Comparable x) := inferInstanceAs (Decidable (cmp x = true))
+
 theorem cmpL_mem : ∀ {vs : List Val}, cmpL vs = true → ∀ v ∈ vs, cmp v = true
   | [], _, _, h => by simp at h
   | w :: ws, h, v, hv => by
